@@ -16,7 +16,8 @@ Inductive fault :=
   | SurfaceTwoReactants | SpeciesMissingProperty
   | MatrixRowSizeMismatch | MatrixRagged | SparseOutOfRange | SparseZeroElement | SparseMissingBlockIndex
   | VectorMatrixRowSizeMismatch | VectorMatrixRagged | BuilderElementOutOfRange
-  | ToleranceOtherPhase | ToleranceParameterised.
+  | ToleranceOtherPhase | ToleranceParameterised
+  | UnsafeSetRaggedRow | BuildReactionsCleared.
 
 (* Some (enum, member) = the call raises std::system_error with that code; None = the call is valid *)
 Definition documented (f : fault) : option (string * string) :=
@@ -42,6 +43,8 @@ Definition documented (f : fault) : option (string * string) :=
   | SparseZeroElement => Some ("MicmMatrixErrc", "ZeroElementAccess")
   | SparseMissingBlockIndex => Some ("MicmMatrixErrc", "MissingBlockIndex")
   | ToleranceOtherPhase | ToleranceParameterised => None
+  | UnsafeSetRaggedRow => Some ("MicmMatrixErrc", "RowSizeMismatch")      (* the row assignment of the parameter matrix *)
+  | BuildReactionsCleared => Some ("MicmSolverBuilderErrc", "MissingReactions")
   end.
 
 Definition all_faults : list fault :=
@@ -49,7 +52,8 @@ Definition all_faults : list fault :=
    SetUnknownSpecies; SetConcWrongLength; SetConcScalarMultiCell; SetParamUnknownLabel; SetParamWrongLength;
    SetParamScalarMultiCell; UnsafeSetWrongCells; UnsafeSetWrongParams; SurfaceTwoReactants; SpeciesMissingProperty;
    MatrixRowSizeMismatch; MatrixRagged; SparseOutOfRange; SparseZeroElement; SparseMissingBlockIndex;
-   VectorMatrixRowSizeMismatch; VectorMatrixRagged; BuilderElementOutOfRange; ToleranceOtherPhase; ToleranceParameterised].
+   VectorMatrixRowSizeMismatch; VectorMatrixRagged; BuilderElementOutOfRange; ToleranceOtherPhase; ToleranceParameterised;
+   UnsafeSetRaggedRow; BuildReactionsCleared].
 
 Fixpoint lookup_code (e m : string) (l : list (string * string * nat)) : option nat :=
   match l with
@@ -81,7 +85,7 @@ Definition harness_faults : list fault :=
    UnsafeSetWrongCells; UnsafeSetWrongParams; SurfaceTwoReactants; SpeciesMissingProperty;
    MatrixRowSizeMismatch; MatrixRagged; SparseOutOfRange; SparseZeroElement; SparseMissingBlockIndex;
    VectorMatrixRowSizeMismatch; VectorMatrixRagged; BuilderElementOutOfRange; SetParamScalarMultiCell;
-   ToleranceOtherPhase; ToleranceParameterised].
+   ToleranceOtherPhase; ToleranceParameterised; UnsafeSetRaggedRow; BuildReactionsCleared].
 Definition fault_of_id (n : nat) : option fault := nth_error harness_faults n.
 
 (* ---- order of the checks of SolverBuilder::Build (after the repair 93d1584) ---- *)
